@@ -26,7 +26,7 @@ RULE = ('schedules of 2-3 threads, each running 1-4 public operations (BeartypeC
         'inside beartype (random walk with switch probability p; runs with d in {1,2,3} fixed change points; runs that '
         'preempt where a pooled scratch object is acquired or released and let the other thread run whole operations '
         'there); pooled dict / list / set containers are instances of checking subclasses that record any access by a '
-        'thread that is not the current holder; '
+        'thread that is not the current holder, and the pooled HintTreeCode / BeartypeCallDecorFuncData / FixedList objects have every attribute / item access checked against a side table of holders; '
         'beartype\'s locks are scheduler-aware shims; oracles: no exception, no logical deadlock, results equal to the '
         'analytically known sequential results, one shared object per equal configuration / hashable hint, every '
         'registration visible, pooled scratch objects owned by one operation at a time; distinct by switch trace digest; '
@@ -93,10 +93,53 @@ class PoolMonitor:
         for base in per_type:
             ipool._key_to_pool[base].clear()          # plain containers pooled during the warm-up
 
+        # ---- the same sanitizer for the pooled objects that are not builtin containers ------------------
+        # HintTreeCode (code generation scratch state), BeartypeCallDecorFuncData (decoration scratch state) and the
+        # fixed lists of the sized pool.  The holder lives in a side table keyed by id() (the classes have __slots__);
+        # tracked objects are kept alive so that an id is never reused; an object that never went through a pool
+        # (absent from the table) is nobody's business.
+        self.holder = {}
+        self.keep = {}
+        self.object_accesses = 0
+        from beartype._check.cls.hint.tree.hinttreecode import HintTreeCode
+        from beartype._check.cls.call.calldatadecorfunc import BeartypeCallDecorFuncData
+        from beartype._util.cache.pool.utilcachepoollistfixed import FixedList
+        self.tracked_classes = (HintTreeCode, BeartypeCallDecorFuncData, FixedList)
+
+        def check_holder(self_, what):
+            mon.object_accesses += 1
+            h = mon.holder.get(id(self_), mon)
+            if h is not mon and h != threading.get_ident():
+                f = sys._getframe(2)
+                where = f'{os.path.basename(f.f_code.co_filename)}:{f.f_code.co_name}'
+                mon.stale_uses.append((where, f'{type(self_).__name__}: {what} at {where} line {f.f_lineno} by thread '
+                                       f'{threading.get_ident()} while the pooled object is '
+                                       + ('in the pool (released)' if h is None else f'held by thread {h}')))
+
+        for cls in (HintTreeCode, BeartypeCallDecorFuncData):
+            def ga(self_, name, _o=object.__getattribute__):
+                check_holder(self_, f'read of .{name}')
+                return _o(self_, name)
+
+            def sa(self_, name, value, _o=object.__setattr__):
+                check_holder(self_, f'write of .{name}')
+                return _o(self_, name, value)
+            cls.__getattribute__ = ga
+            cls.__setattr__ = sa
+        for name in ('__getitem__', '__setitem__', '__iter__', '__len__', '__contains__', 'index', 'count', 'copy'):
+            def lm(self_, *a, _o=getattr(FixedList, name), _n=name, **k):
+                check_holder(self_, f'{_n}()')
+                return _o(self_, *a, **k)
+            lm.__name__ = name
+            setattr(FixedList, name, lm)
+
         def acquire(pool, *a, **k):
             item = orig_acq(pool, *a, **k)
             if type(item) in mon.base_of:
                 item._v_holder = threading.get_ident()
+            elif type(item) in mon.tracked_classes:
+                mon.keep[id(item)] = item
+                mon.holder[id(item)] = threading.get_ident()
             with mon.mutex:
                 mon.acquires += 1
                 if id(item) in mon.owned:
@@ -112,6 +155,8 @@ class PoolMonitor:
             with mon.mutex:
                 mon.owned.pop(id(item), None)
                 mon.releases += 1
+            if id(item) in mon.holder:
+                mon.holder[id(item)] = None
             if type(item) in mon.base_of:
                 # back under the key it is acquired by (release_instance() keys by obj.__class__)
                 item._v_holder = None
@@ -490,6 +535,8 @@ def main():
         judge(W, 'sched', idx, programs, res, wit)
     W.count('pool_acquires_observed', pool_mon.acquires)
     W.count('pooled_container_accesses_checked_for_holder', pool_mon.guarded_accesses)
+    W.count('pooled_object_accesses_checked_for_holder', pool_mon.object_accesses)
+    W.count('pooled_objects_tracked', len(pool_mon.holder))
     W.count('registry_writes_checked_for_lock', reg_mon.writes)
     W.count('shim_lock_acquisitions', sum(s_.acquisitions for s_ in sched.SHIMS.values()))
 
@@ -531,6 +578,7 @@ def main():
     W.need('pool_acquires_observed', 100)
     W.need('switches_at_pool_events', 50)
     W.need('pooled_container_accesses_checked_for_holder', 1000)
+    W.need('pooled_object_accesses_checked_for_holder', 1000)
     W.need('registry_writes_checked_for_lock', 200)
     W.need('stress_runs', 20)
     W.finish()
